@@ -192,7 +192,7 @@ H_stop_ret(o, e) ==
 H_op_issue(o, e) ==
   LET x == o.I[e.i]
       op == [op |-> e.op, i |-> e.i, kind |-> e.kind, key |-> e.key, exp |-> e.exp, id |-> e.id,
-             tok |-> e.tok, prio |-> e.prio, cls |-> e.cls, at |-> e.t, src |-> e.src, to |-> FALSE]
+             tok |-> e.tok, prio |-> e.prio, cls |-> e.cls, at |-> e.t, src |-> e.src, to |-> FALSE, ins |-> x.stopping > 0]
       v1 == IF x.stopped THEN {V("C09", "store_operation_after_stop_returned", e.i, e)} ELSE {}
       v2 == IF x.burst + 1 > 40 THEN {V("C13", "unbounded_operations_in_one_instant", e.i, e)} ELSE {}
       v3 == IF e.key # x.cfg.group THEN {V("C01", "operation_on_foreign_key", e.i, e)} ELSE {}
@@ -209,7 +209,9 @@ H_mutation(o, e) ==
       k == e.key
       p == o.rec[k]
       m == [kind |-> e.kind, id |-> e.id, tok |-> e.tok, key |-> k]
-      legit == LegitMutation(m, p, w, x.cfg.tk, x.cfg.prio, x.stopping > 0)
+      \* "during its own graceful shutdown": the operation was issued inside a stop call of the writer
+      inStop == x.stopping > 0 \/ \E q \in o.pend : q.op = e.op /\ q.ins
+      legit == LegitMutation(m, p, w, x.cfg.tk, x.cfg.prio, inStop)
       foreign == p.live /\ p.writer # w
       how == IF e.kind = "delete" /\ x.st.open /\ x.st.hadClaim THEN ":by_stopping_instance_whose_record_was_already_lost" ELSE ""
       v1 == IF ~legit THEN {V("C01", "illegitimate_" \o e.kind \o (IF foreign THEN "_of_foreign_record" ELSE "_of_own_record") \o how, w, e)} ELSE {}
@@ -251,11 +253,13 @@ H_op_resp(o, e) ==
             ELSE x
       y2 == IF e.kind = "watch" /\ e.ok THEN [y1 EXCEPT !.ready = ~x.halted, !.readyAt = e.t] ELSE y1
       \* reconnect verification reads
-      y3 == IF known /\ e.kind = "get" /\ q.src = "verify" /\ x.verify = "first"
-            THEN (IF e.ok /\ Own(o, e.i) THEN [y2 EXCEPT !.verify = "second", !.verifyAt = e.t]
-                  ELSE [y2 EXCEPT !.verify = "done", !.verifyOwn = FALSE])
-            ELSE IF known /\ e.kind = "get" /\ q.src = "validate" /\ x.verify = "second" /\ q.at = x.verifyAt
-            THEN [y2 EXCEPT !.verify = "done", !.verifyOwn = e.ok /\ Own(o, e.i)]
+      \* reads of a reconnect verification: the Get of verifyLeadershipAfterReconnect and the validateToken read it issues
+      \* at the instant that Get returns (several verifications may overlap)
+      isV1 == known /\ e.kind = "get" /\ q.src = "verify"
+      isV2 == known /\ e.kind = "get" /\ q.src = "validate" /\ q.at = x.verifyAt
+      vown == e.ok /\ Own(o, e.i)
+      y3 == IF isV1 THEN [y2 EXCEPT !.verifyAt = e.t, !.verifyOwn = vown, !.verify = IF vown \/ ~x.claim THEN @ ELSE "failed"]
+            ELSE IF isV2 THEN [y2 EXCEPT !.verifyOwn = vown, !.verify = IF vown \/ ~x.claim THEN @ ELSE "failed"]
             ELSE y2
       y4 == [y3 EXCEPT !.inflight = @ \ {e.op}, !.hung = @ \ {e.op}]
       lostResp == e.lost \/ (~e.ok /\ e.err \in {"timeout", "connclosed", "noresponders"})
@@ -292,7 +296,8 @@ ClaimEdge(o, i, b, e) ==
            THEN [x EXCEPT !.claim = TRUE, !.ttok = x.acqTok, !.trev = x.acqRev, !.acqFresh = FALSE, !.revOK = TRUE,
                           !.consecU = 0, !.hdue = FALSE, !.failRun = 0, !.okStart = e.t, !.hskip = FALSE,
                           !.lostAt = -1, !.termLive = TRUE, !.ndRise = x.nd, !.preSince = -1, !.note = "", !.cut = x.part,
-                          !.vc = {IF ClaimBacked(i, r, x.acqTok) THEN [c EXCEPT !.saw = TRUE] ELSE c : c \in @}]
+                          !.vc = {IF ClaimBacked(i, r, x.acqTok) THEN [c EXCEPT !.saw = TRUE] ELSE c : c \in @},
+                          !.verify = "none", !.verifyAt = -1]
            ELSE IF falling
            THEN [x EXCEPT !.claim = FALSE, !.termLive = FALSE, !.graceDue = -1, !.hdue = FALSE, !.why = x.note, !.note = "",
                           !.verify = "none",
@@ -311,7 +316,8 @@ ClaimEdge(o, i, b, e) ==
             THEN {V("C11", "grace_demotion_before_grace_period_elapsed", i, e)} ELSE {}
       vh == IF falling /\ (x.note = "health_fail" \/ x.lastEv = "health_u") /\ x.consecU # HealthThreshold(x.cfg.hn)
             THEN {V("C12", "health_demotion_at_wrong_count", i, e)} ELSE {}
-      vv == IF falling /\ x.note = "verify_fail" /\ x.verify = "done" /\ x.verifyOwn
+      vpend == \E q \in o.pend : q.i = i /\ q.kind = "get" /\ q.src \in {"verify", "validate"}
+      vv == IF falling /\ x.note = "verify_fail" /\ x.verifyOwn /\ x.verify # "failed" /\ ~vpend /\ x.verifyAt >= 0
             THEN {V("C11", "demoted_although_reconnect_verification_showed_ownership", i, e)} ELSE {}
       \* vacancy filled
       o2 == IF rising /\ r.live /\ r.id = i THEN [o1 EXCEPT !.vacSince[k] = -1] ELSE o1
@@ -353,7 +359,7 @@ H_health(o, e) ==
       N == HealthThreshold(x.cfg.hn)
       cu == IF e.res THEN 0 ELSE x.consecU + 1
       v1 == IF ~HealthDeadlineOK(e.dl) THEN {V("C12", "health_check_context_deadline", e.i, e)} ELSE {}
-      y == [x EXCEPT !.consecU = cu, !.hdue = ~e.res /\ cu >= N, !.hskip = @ \/ ~e.res]
+      y == [x EXCEPT !.consecU = cu, !.hdue = ~e.res /\ cu >= N, !.hskip = @ \/ ~e.res \/ e.hang]
       \* a checker that ignores its context and hangs stalls the heartbeat loop: the instance is cut off by user code
       y2 == IF e.hang THEN [y EXCEPT !.cut = TRUE] ELSE y
   IN R([SetI(o, e.i, y2) EXCEPT !.unhealthy = @ \/ ~e.res, !.faulty = @ \/ e.hang], v1)
@@ -378,7 +384,7 @@ H_disc(o, e) ==
       EXCEPT !.connEv = TRUE], {})
 H_reconn(o, e) ==
   LET x == o.I[e.i] IN
-  R([SetI(o, e.i, [x EXCEPT !.graceDue = -1, !.verify = IF x.claim THEN "first" ELSE "none", !.verifyOwn = TRUE])
+  R([SetI(o, e.i, [x EXCEPT !.graceDue = -1, !.verify = "none", !.verifyOwn = FALSE, !.verifyAt = -1])
       EXCEPT !.connEv = TRUE], {})
 H_closed(o, e) == R([o EXCEPT !.connEv = TRUE], {})
 
@@ -438,12 +444,12 @@ H_snap(o, e) ==
              THEN {V("C03", "not_demoted_at_completion_of_next_heartbeat:" \o y.lostCause \o Ctx(o1), i, e)} ELSE {}
       v03b == IF quiet /\ y.claim /\ y.failRun >= ToleratedFailures
               THEN {V("C03", "not_demoted_after_third_failed_refresh", i, e)} ELSE {}
-      vver == IF quiet /\ y.verify = "done" /\ ~y.verifyOwn /\ y.claim
+      vver == IF quiet /\ y.verify = "failed" /\ y.claim
               THEN {V("C11", "kept_leadership_although_verification_read_did_not_show_ownership", i, e)} ELSE {}
       z == [y EXCEPT !.hdue = IF quiet THEN FALSE ELSE @,
                      !.lostAt = IF v03 # {} THEN -1 ELSE @,
                      !.failRun = IF v03b # {} THEN 0 ELSE @,
-                     !.verify = IF quiet /\ @ = "done" THEN "none" ELSE @]
+                     !.verify = IF quiet /\ @ = "failed" THEN "none" ELSE @]
   IN R(SetI(o1, i, z),
        r0.v \cup v18a \cup v18b \cup v18c \cup v18d \cup v02 \cup v02b \cup v07 \cup v05 \cup v08 \cup v12
             \cup v19 \cup v03 \cup v03b \cup vver \cup v09)
@@ -489,6 +495,8 @@ Handle(o, e) ==
   ELSE IF ev = "disc" THEN H_disc(o, e)
   ELSE IF ev = "reconn" THEN H_reconn(o, e)
   ELSE IF ev = "closed" THEN H_closed(o, e)
+  ELSE IF ev = "script_miss"          \* a model behaviour being replayed could not be followed: the rest of the run is not paced by the script
+       THEN R([o EXCEPT !.faulty = TRUE, !.I = [i \in Ids |-> [o.I[i] EXCEPT !.cut = TRUE]]], {})
   ELSE IF ev = "partition" THEN H_partition(o, e)
   ELSE IF ev = "heal" THEN H_heal(o, e)
   ELSE R(o, {})
